@@ -76,7 +76,7 @@ def _variants(prop, case):
         idt = ["i8", "i1", "u1", "i2"][(h // 256) % 4]
         return [{"npint": bool(h & 1), "listkind": ["list", "array"][(h // 2) % 2], "via": "from_array", "idxdt": idt},
                 {"npint": bool(h & 1), "listkind": ["list", "array"][(h // 2) % 2], "via": RLV[1 + (h // 4) % 7], "maskvia": RLV[(h // 32) % 6], "idxdt": idt,
-                 "spelling": ["plain", "tuple", "ellipsis"][(h // 1024) % 3]}]
+                 "spelling": ["plain", "tuple", "ellipsis"][(h // 1024) % 3], "npbounds": bool(h & 4096)}]
     if op in ("rl_ufunc", "rl_reduce"):
         hw = ["ufunc", "operator"][h % 2] if op == "rl_ufunc" else ["np", "method"][h % 2]
         return [{"how": hw, "via": "from_array", "share": True}, {"how": hw, "via": RLV[1 + (h // 4) % 7]}]
